@@ -42,8 +42,30 @@ pub enum Act {
     WithNullValue,
     /// one value longer, all values different (longer but not an extension)
     Regrown,
+    /// back to the dictionary of batch 0: the very same allocation
+    RevertFirstSame,
+    /// back to the dictionary of batch 0: an equal copy
+    RevertFirstCopy,
+    /// back to the dictionary of the batch before the previous one: the very same allocation
+    RevertPrev2Same,
+    /// back to the dictionary of the batch before the previous one: an equal copy
+    RevertPrev2Copy,
 }
-const ACTS: [Act; 7] = [Act::Same, Act::EqualCopy, Act::Extended, Act::Replaced, Act::Shrunk, Act::WithNullValue, Act::Regrown];
+const ACTS: [Act; 11] = [
+    Act::Same,
+    Act::EqualCopy,
+    Act::Extended,
+    Act::Replaced,
+    Act::Shrunk,
+    Act::WithNullValue,
+    Act::Regrown,
+    Act::RevertFirstSame,
+    Act::RevertFirstCopy,
+    Act::RevertPrev2Same,
+    Act::RevertPrev2Copy,
+];
+/// reduced menu for the deepest two-dictionary exploration of the thorough tier
+const ACTS_CORE: [Act; 7] = [Act::Same, Act::EqualCopy, Act::Extended, Act::Replaced, Act::Regrown, Act::RevertFirstSame, Act::RevertFirstCopy];
 fn act_from(s: &str) -> Option<Act> {
     ACTS.iter().copied().find(|a| format!("{a:?}") == s.trim())
 }
@@ -125,6 +147,7 @@ fn values_array(vt: &DataType, e: &Entries) -> ArrayRef {
     }
 }
 
+#[derive(Clone)]
 struct FieldState {
     entries: Entries,
     arr: ArrayRef,
@@ -175,11 +198,25 @@ fn build_batch(v: Variant, schema: &SchemaRef, fs: &[FieldState]) -> Result<Reco
     make_batch(schema, n, cols)
 }
 
-fn apply(a: Act, cur: &FieldState, vt: &DataType, fresh: &mut u32) -> Option<FieldState> {
+/// `past` = the field's dictionary in every batch written so far (past[0] = batch 0, last = current)
+fn apply(a: Act, past: &[FieldState], vt: &DataType, fresh: &mut u32) -> Option<FieldState> {
+    let cur = past.last().unwrap();
     let mut e = cur.entries.clone();
     match a {
         Act::Same => return Some(FieldState { entries: e, arr: cur.arr.clone() }),
         Act::EqualCopy => {}
+        Act::RevertFirstSame => return Some(FieldState { entries: past[0].entries.clone(), arr: past[0].arr.clone() }),
+        Act::RevertFirstCopy => e = past[0].entries.clone(),
+        Act::RevertPrev2Same | Act::RevertPrev2Copy => {
+            if past.len() < 3 {
+                return None; // needs two earlier batches, and batch 0 is covered by RevertFirst*
+            }
+            let p = &past[past.len() - 3];
+            if a == Act::RevertPrev2Same {
+                return Some(FieldState { entries: p.entries.clone(), arr: p.arr.clone() });
+            }
+            e = p.entries.clone();
+        }
         Act::Extended => {
             e.push(Some(*fresh));
             *fresh += 1;
@@ -249,12 +286,13 @@ pub struct DictModel {
     pub variant: Variant,
     pub sink: Sink,
     pub delta: bool,
+    pub menu: Vec<Act>,
     pub evals: AtomicU64,
     pub outcomes: Mutex<BTreeMap<String, u64>>,
 }
 impl DictModel {
     fn new(variant: Variant, sink: Sink, delta: bool) -> Self {
-        DictModel { variant, sink, delta, evals: AtomicU64::new(0), outcomes: Mutex::new(BTreeMap::new()) }
+        DictModel { variant, sink, delta, menu: ACTS.to_vec(), evals: AtomicU64::new(0), outcomes: Mutex::new(BTreeMap::new()) }
     }
     fn label(&self) -> String {
         format!("dict|{:?}|{}|{}", self.variant, self.sink.name(), if self.delta { "delta" } else { "resend" })
@@ -269,15 +307,15 @@ impl DictModel {
 
 impl HistoryModel for DictModel {
     type Op = Vec<Act>;
-    type Key = Vec<(Entries, bool)>;
+    type Key = Vec<(Entries, Entries, bool, bool, bool)>;
     fn ops(&self) -> Vec<Vec<Act>> {
         if self.variant.n_dicts() == 1 {
-            ACTS.iter().map(|a| vec![*a]).collect()
+            self.menu.iter().map(|a| vec![*a]).collect()
         } else {
             let mut v = vec![];
-            for a in ACTS {
-                for b in ACTS {
-                    v.push(vec![a, b]);
+            for a in &self.menu {
+                for b in &self.menu {
+                    v.push(vec![*a, *b]);
                 }
             }
             v
@@ -295,6 +333,7 @@ impl HistoryModel for DictModel {
                 FieldState { arr: values_array(&vts[j], &e), entries: e }
             })
             .collect();
+        let mut past: Vec<Vec<FieldState>> = cur.iter().map(|f| vec![f.clone()]).collect();
         let mut batches = vec![];
         let mut tracked: Vec<Option<Tracked>> = (0..nd).map(|_| None).collect();
         let mut expect_err_at: Option<usize> = None;
@@ -304,12 +343,15 @@ impl HistoryModel for DictModel {
             if bi > 0 {
                 let mut next = vec![];
                 for j in 0..nd {
-                    match apply(hist[bi - 1][j], &cur[j], &vts[j], &mut fresh) {
+                    match apply(hist[bi - 1][j], &past[j], &vts[j], &mut fresh) {
                         Some(f) => next.push(f),
                         None => return Step::Disabled,
                     }
                 }
                 cur = next;
+                for j in 0..nd {
+                    past[j].push(cur[j].clone());
+                }
             }
             match build_batch(v, &schema, &cur) {
                 Ok(b) => batches.push(b),
@@ -335,7 +377,16 @@ impl HistoryModel for DictModel {
             Ok(m) => m,
             Err(e) => return Step::Violation(format!("harness:dict:extract:{v:?}"), e),
         };
-        let key: Self::Key = (0..nd).map(|j| (cur[j].entries.clone(), tracked[j].as_ref().map(|t| same_alloc(&t.arr, &cur[j].arr)).unwrap_or(false))).collect();
+        // what later actions and the tracker's pointer fast path can depend on: current and previous dictionary, and
+        // which of {current, previous, first} allocation the tracker holds
+        let key: Self::Key = (0..nd)
+            .map(|j| {
+                let p = &past[j];
+                let prev = if p.len() >= 2 { &p[p.len() - 2] } else { &p[0] };
+                let held = |a: &ArrayRef| tracked[j].as_ref().map(|t| same_alloc(&t.arr, a)).unwrap_or(false);
+                (cur[j].entries.clone(), prev.entries.clone(), held(&cur[j].arr), held(&prev.arr), held(&p[0].arr))
+            })
+            .collect();
         let o = Opts { delta: self.delta, ..Opts::default() };
         self.outcome(format!("tracker:{}", upds.last().map(|u| format!("{u:?}")).unwrap_or("-".into())));
         match self.sink {
@@ -432,16 +483,23 @@ pub fn run_dict(ctx: &Ctx) -> Stats {
     let inner = Ctx { prop: ctx.prop.clone(), tier: ctx.tier, seed: ctx.seed, replay: None, start: ctx.start, budget: ctx.budget, verif_dir: ctx.verif_dir.clone(), threads: 1, extra_args: vec![] };
     let mut st = vcore::par_for(ctx, "dict", cfgs.len() as u64, 1, |idx, st| {
         let (var, sink, delta) = cfgs[idx as usize];
-        let m = DictModel::new(var, sink, delta);
-        // every history (no dedup) up to `depth`
-        let depth = if var == Variant::Two { ctx.pick(2, 3) } else { ctx.pick(3, 4) };
+        let mut m = DictModel::new(var, sink, delta);
+        // every history (no dedup) up to `depth`; two dictionary fields: all 121 action pairs to depth 2
+        let depth = if var == Variant::Two { 2 } else { ctx.pick(3, 4) };
         let mut local = Stats::new();
         explore(&inner, &m.label(), &m, depth, false, &mut local);
         // deeper, merging equal states
-        if var == Variant::Top || var == Variant::InList {
+        if var == Variant::Top {
             let mut label = m.label();
             label.push_str("|dedup");
-            explore(&inner, &label, &m, ctx.pick(5, 7), true, &mut local);
+            explore(&inner, &label, &m, ctx.pick(4, 6), true, &mut local);
+        }
+        // thorough: two dictionary fields to depth 3 over the core action menu (49 pairs)
+        if var == Variant::Two && !ctx.quick() {
+            m.menu = ACTS_CORE.to_vec();
+            let mut label = m.label();
+            label.push_str("|core");
+            explore(&inner, &label, &m, 3, false, &mut local);
         }
         local.add("dict", m.evals.load(Ordering::Relaxed), local.traces);
         for (k, n) in m.outcomes.lock().unwrap().iter() {
@@ -456,7 +514,7 @@ pub fn run_dict(ctx: &Ctx) -> Stats {
     st.count("dict.configs(variant x sink x handling)", cfgs.len() as u64);
     st.extra.insert("dict_actions".into(), json!(ACTS.iter().map(|a| format!("{a:?}")).collect::<Vec<_>>()));
     st.extra.insert("dict_variants".into(), json!(VARIANTS.iter().map(|a| format!("{a:?} {:?}", a.schema().fields().iter().map(|f| format!("{}", f.data_type())).collect::<Vec<_>>())).collect::<Vec<_>>()));
-    st.extra.insert("dict_depth".into(), json!({"all histories": format!("{} (two dictionary fields: {})", ctx.pick(3, 4), ctx.pick(2, 3)), "dedup runs (Top, InList)": ctx.pick(5, 7)}));
+    st.extra.insert("dict_depth".into(), json!({"all histories (11 actions)": ctx.pick(3, 4), "two dictionary fields (121 action pairs)": 2, "two dictionary fields, core menu (49 pairs), thorough only": 3, "dedup run (Top)": ctx.pick(4, 6)}));
     st
 }
 
